@@ -28,6 +28,10 @@ def run(ctx, R, tier):
     stages_every_path(F, R)
     every_chunk(F, R)
     order(F, R)
+    # 'in slices no longer than the internal buffer size ... nothing is lost': each chunk is rendered with its own frame count (the
+    # chunk-order / advance rule of C05: dt x the frames of this chunk, computed per chunk)
+    from .c05 import order as chunk_advance
+    chunk_advance(F, R)
     send(F, R)
     ibs(F, R)
     ibs_single(F, R)
